@@ -42,6 +42,22 @@ SENT = {1: True, 2: False, 3: None, 4: 1, 5: 0, 6: [], 7: "no"}
 
 def impl(case):
     kind, use_cache, skip, request, tasks = case["data"]
+    if case.get("decoy"):
+        # a second evaluator with other semantics evaluates the same programs on the same
+        # inputs first: evaluators (and solvers built on them) must not share state
+        sem = O.semantics_dict(sorted(S.PRIMS))
+        twisted = {P: (S.Clos(1) if P.primitive == "add" else S.Clos(0) if P.primitive == "sub" else
+                       S.Clos(21) if P.primitive == "inc" else 7 if P.primitive == "one" else v)
+                   for P, v in sem.items()}
+        decoy = DSLEvaluator(twisted, use_cache=True)
+        decoy.skip_exceptions = {S.EXC_BY_ID[i] for i in (0, 1, 2, 3)}
+        for examples, progs, answers in tasks:
+            for w in progs:
+                for i, o in examples:
+                    try:
+                        decoy.eval(O.prog(w), [S.value_from_wire(v) for v in i])
+                    except Exception:
+                        pass
     ev = DSLEvaluator(O.semantics_dict(sorted(S.PRIMS)), use_cache=bool(use_cache))
     ev.skip_exceptions = {S.EXC_BY_ID[i] for i in skip}
     solver = (NaivePBESolver, CutoffPBESolver)[kind](ev)
